@@ -20,7 +20,7 @@ import re
 import symtable
 from typing import Dict, List, Optional, Set, Tuple
 
-from ..model import Repo, AnalysisError, norm
+from ..model import Repo, AnalysisError, norm, const_str
 from ..report import Ctx, RuleResult
 
 SA = 'lark.tools.standalone'
@@ -545,4 +545,25 @@ def run(ctx: Ctx) -> RuleResult:
                     want[norm(n.orelse.elts[0])] = 1 - tag
                 except Exception:
                     pass
+    # the command line builds what Lark(grammar, parser='lalr') builds: its --lexer default is the lexer 'auto' resolves to for LALR
+    tmod = repo.module('lark.tools')
+    ladd = [c for c in ast.walk(tmod.tree) if isinstance(c, ast.Call) and isinstance(c.func, ast.Attribute) and c.func.attr == 'add_argument'
+            and any(const_str(a) == '--lexer' for a in c.args)]
+    if len(ladd) != 1:
+        raise AnalysisError('R-STANDALONE-CLOSURE: cannot find the --lexer switch of lark.tools')
+    dflt = next((k.value for k in ladd[0].keywords if k.arg == 'default'), None)
+    lk_init = repo.func('lark.lark:Lark.__init__')
+    auto = None
+    for a in lk_init.body_nodes():
+        if isinstance(a, ast.Assign) and norm(a.targets[0]).endswith('options.lexer') and const_str(a.value) in ('contextual', 'basic'):
+            from ..exprs import path_conditions as _pcs
+            if any("parser == 'lalr'" in norm(t) and pol for t, pol in _pcs(a)):
+                auto = const_str(a.value)
+    if auto is None:
+        raise AnalysisError('R-STANDALONE-CLOSURE: cannot find what lexer="auto" resolves to for parser="lalr" in Lark.__init__')
+    ok = dflt is not None and const_str(dflt) == auto
+    res.ob('lark/tools/__init__.py:%d' % ladd[0].lineno, "the --lexer default of the command-line tools is %r, what Lark resolves 'auto' to for LALR" % auto, ok)
+    if not ok:
+        res.finding('lark.tools', ladd[0], "the command line's --lexer default is %s while Lark(parser='lalr') uses %r: a module generated without -l lexes "
+                    'differently from the parser it was generated from' % (norm(dflt) if dflt is not None else None, auto), construct='cli-default-lexer', module=tmod)
     return res
